@@ -9,6 +9,7 @@ import (
 	"io"
 	"net"
 	"runtime"
+	"strings"
 	"sync"
 	"time"
 
@@ -29,6 +30,10 @@ type tlsClientCfg struct {
 	Resume bool     `json:"resume"`
 	SV     string   `json:"sv"`
 	Order  string   `json:"order"`
+	// Big: the client offers 64 more application protocols of 100 bytes each after its own (a legal hello of about
+	// 6.9 KiB, above three prefetch chunks and below the matching limit); the connection receives the record header in
+	// a segment of its own, so that no later segment ends on a chunk boundary
+	Big bool `json:"big"`
 }
 type tlsMatcherCfg struct {
 	SNI  []string `json:"sni"`
@@ -68,8 +73,19 @@ var (
 	resumeCache = tls.NewLRUClientSessionCache(8)
 )
 
+func bigProtos(own []string) []string {
+	out := append([]string{}, own...)
+	for i := 0; i < 64; i++ {
+		out = append(out, fmt.Sprintf("x-verif-filler-%02d-", i)+strings.Repeat("p", 82))
+	}
+	return out
+}
+
 func clientConfig(c tlsClientCfg) *tls.Config {
 	cfg := &tls.Config{ServerName: c.SNI, InsecureSkipVerify: true, NextProtos: c.ALPN}
+	if c.Big {
+		cfg.NextProtos = bigProtos(c.ALPN)
+	}
 	switch c.Vers {
 	case "12":
 		cfg.MinVersion, cfg.MaxVersion = tls.VersionTLS12, tls.VersionTLS12
@@ -188,6 +204,9 @@ func runTLSCase(base caddy.Context, tc tlsCase, idx int) (map[string]any, error)
 	m := mod.(layer4.ConnMatcher)
 	rec := vh.NewRecorder(hello)
 	sc := &vh.ScriptConn{Rec: rec, Slen: len(hello), EndKind: "eof", Start: time.Now(), Unit: time.Hour}
+	if tc.C.Big {
+		sc.Pulls = []int{5}
+	}
 	cx := layer4.WrapConnection(sc, make([]byte, 0, 2048), zap.NewNop())
 	for {
 		bl, _, _, _ := layer4.VerifConnState(cx)
@@ -223,7 +242,7 @@ func runTLSCase(base caddy.Context, tc tlsCase, idx int) (map[string]any, error)
 		}
 	}
 	legacy := int(hello[9])<<8 | int(hello[10])
-	return map[string]any{"id": fmt.Sprintf("tls:%d", idx), "c": map[string]any{"sni": tc.C.SNI, "alpn": nonNilStrs(tc.C.ALPN), "vers": tc.C.Vers, "curves": tc.C.Curves, "suites": tc.C.Suites, "resume": tc.C.Resume, "sv": tc.C.SV, "order": tc.C.Order},
+	return map[string]any{"id": fmt.Sprintf("tls:%d", idx), "c": map[string]any{"sni": tc.C.SNI, "alpn": nonNilStrs(ccfg.NextProtos), "big": tc.C.Big, "vers": tc.C.Vers, "curves": tc.C.Curves, "suites": tc.C.Suites, "resume": tc.C.Resume, "sv": tc.C.SV, "order": tc.C.Order},
 		"cfg": map[string]any{"sni": nonNilStrs(tc.Cfg.SNI), "alpn": nonNilStrs(tc.Cfg.ALPN)},
 		"o":   map[string]any{"srv": srv, "par": par, "verdict": verdict, "phName": phName, "phVersion": phVer, "legacy": legacy, "helloLen": len(hello)}}, nil
 }
